@@ -188,7 +188,14 @@ impl Compiler {
         }
 
         if let TypedExprKind::Identifier(name) = &callee.kind {
-            if Self::is_builtin(name) {
+            // a builtin name denotes the VM intrinsic only where nothing in the program binds it: a
+            // local, a parameter, a captured variable or a top-level definition of that name is
+            // what the call runs
+            if Self::is_builtin(name)
+                && self.resolve_variable(name).is_none()
+                && self.resolve_upvalue(name).is_none()
+                && !self.globals.contains_key(name)
+            {
                 return self.compile_typed_builtin_call(name, args, dest, span);
             }
 
